@@ -399,19 +399,38 @@ def limit_multi_case(draw):
             "jobs": jobs, "horizon": 12.0, "stop": "limit", "monitor_poll": 0.02}
     if broker != "mem":
         case["lat"] = draw(st.lists(st.sampled_from([0.0, 0.001, 0.002, 0.005]), min_size=4, max_size=40))
+    # sometimes a stop signal arrives as well - before, while or after the limit is being reached
+    case["signal_at"] = draw(st.one_of(st.none(), st.none(), st.integers(0, 300_000).map(lambda us: us / 1e6)))
     return case
 
 
 def run_limit_multi(case: dict) -> Outcome:
     out = Outcome()
+    info: dict = {}
+
+    def hook(trace, worker):
+        loop = trace.env.loop
+
+        def fire():
+            info["sent"] = loop.send_signal(signal.SIGTERM)
+            if info["sent"]:
+                info["t"] = loop.time()
+                trace.stop_requested_at = loop.time()
+                trace.extra["stop_injected"] = True
+
+        if case.get("signal_at") is not None:
+            loop.call_later(case["signal_at"], fire)
+
     try:
-        tr = scenario.run_case(case, settled=lambda t: False)
+        tr = scenario.run_case({k: v for k, v in case.items() if k != "signal_at"}, settled=lambda t: False, hook=hook)
     except (vclock.StepLimit, vclock.Deadlock) as e:
         out.inconclusive = True
         out.info["watchdog"] = str(e)
         return out
-    check_after_stop(out, tr, case, None)
+    check_after_stop(out, tr, case, info.get("t"))
     handed_back = [e for e in tr.spy.events if e.op == "reject"]
+    if info.get("sent"):
+        out.cls("signal-too")
     out.nontrivial = not tr.horizon_hit and bool(handed_back)
     out.cls("broker-" + case["broker"], "stopped-by-limit" if not tr.horizon_hit else "limit-not-reached",
             "hand-back" if handed_back else "no-hand-back")
